@@ -85,7 +85,6 @@ void theta_intersection_base<EN, EK, P, S, CS, A>::update(SS&& sketch) {
     }
     if (match_count == 0) {
       table_ = hash_table(0, 0, resize_factor::X1, 1, table_.theta_, table_.seed_, table_.allocator_, table_.is_empty_);
-      if (table_.theta_ == theta_constants::MAX_THETA) table_.is_empty_ = true;
     } else {
       const uint8_t lg_size = lg_size_from_count(match_count, theta_update_sketch_base<EN, EK, A>::REBUILD_THRESHOLD);
       table_ = hash_table(lg_size, lg_size - 1, resize_factor::X1, 1, table_.theta_, table_.seed_, table_.allocator_, table_.is_empty_);
@@ -106,7 +105,10 @@ CS theta_intersection_base<EN, EK, P, S, CS, A>::get_result(bool ordered) const 
     std::copy_if(table_.begin(), table_.end(), std::back_inserter(entries), key_not_zero<EN, EK>());
     if (ordered) std::sort(entries.begin(), entries.end(), comparator());
   }
-  return CS(table_.is_empty_, ordered, compute_seed_hash(table_.seed_), table_.theta_, std::move(entries));
+  // no entries at theta 1.0 is the empty set; it is decided here and not latched in update(), so that a later input
+  // with a lower theta is still taken into account whatever the order of the inputs
+  const bool is_empty = table_.is_empty_ || (table_.num_entries_ == 0 && table_.theta_ == theta_constants::MAX_THETA);
+  return CS(is_empty, ordered, compute_seed_hash(table_.seed_), table_.theta_, std::move(entries));
 }
 
 template<typename EN, typename EK, typename P, typename S, typename CS, typename A>
